@@ -40,6 +40,14 @@ def main():
             "check_result": {"check": prop, "exit": ck.get("exit"), "seconds": ck.get("secs"), "first_violations": ck.get("what")},
             "detected": ck.get("exit") == 1,
         }
+        mp = os.path.join(d, "meta.json")
+        if os.path.exists(mp):
+            # the verdict of the first evaluation (before any strengthening prompted by this change) is kept
+            try:
+                old = json.load(open(mp))
+                meta["first_verdict"] = old.get("first_verdict") or {"detected": old.get("detected"), "check_result": old.get("check_result")}
+            except Exception:
+                pass
         with open(os.path.join(d, "meta.json"), "w") as f:
             json.dump(meta, f, indent=1)
         print(sid, "detected" if meta["detected"] else "MISSED", ck.get("exit"), (ck.get("what") or [""])[0][:150], flush=True)
